@@ -10,3 +10,131 @@ pub fn vx_control_worker_owner(info: &MinerInfo) -> (r: Vec<Address>)
     ensures r@.to_set() =~= info.control_addresses@.to_set().insert(info.worker).insert(info.owner)
 { info.control_addresses.iter().chain(&[info.worker, info.owner]).copied().collect() }
 
+
+// ---- fvm_shared Address::protocol() — a FUNCTION of the address here (prelude/address_protocol.rs, which this unit does not include, leaves the
+//      result unconstrained apart from the ID class; resolve_worker_address needs "the same address has the same class on every call") ----------
+#[derive(Clone, Copy, PartialEq, Eq, Structural)]
+pub enum Protocol { ID, Secp256k1, Actor, BLS, Delegated }
+pub uninterp spec fn addr_protocol(a: Address) -> Protocol;
+impl Address {
+    /// the address class is determined by the address; the model's `proto == 0` is the ID class
+    #[verifier::external_body]
+    pub fn protocol(&self) -> (r: Protocol) ensures r == addr_protocol(*self), (r == Protocol::ID) == (self.proto == 0) { unimplemented!() }
+}
+
+// ---- iterator-adapter expressions of the control methods: the body IS the original expression, the contract is its meaning ------------------------
+/// lib.rs change_worker_address: `new_control_addresses.into_iter().map(|a| rt.resolve_address(&a).ok_or_else(..)).map(|r| r.map(Address::new_id))
+/// .collect::<Result<_, _>>()`: every control address resolved to its ID address, in order; illegal_argument as soon as one does not resolve.
+/// (a vx substitution pattern cannot contain a string literal and must be a balanced token stream, so the unit cannot name the whole
+/// expression in ONE pattern: it replaces the head `X.into_iter().map` by the call of this helper and turns the rest, up to and including
+/// `.collect::<Result<_, _>>()`, into a comment; identity substitutions on `rt.resolve_address(&address).ok_or_else` and on the `new_id`
+/// mapping make vx exit 2 when either is no longer there exactly once)
+#[verifier::external_body]
+pub fn vx_resolve_control_addrs(rt: &Rt, addrs: Vec<Address>) -> (r: Result<Vec<Address>, ActorError>)
+    ensures
+        r.is_ok() <==> forall|i: int| 0 <= i < addrs@.len() ==> (#[trigger] rt_resolve(addrs@[i], rt.sends@.len())).is_some(),
+        r.is_ok() ==> r->Ok_0@.len() == addrs@.len() && forall|i: int| 0 <= i < addrs@.len() ==>
+            (#[trigger] r->Ok_0@[i]) == (Address { id: rt_resolve(addrs@[i], rt.sends@.len())->Some_0, proto: 0 }),
+        r.is_err() ==> r->Err_0.code == 16,
+{
+    addrs
+        .into_iter()
+        .map(|address| {
+            rt.resolve_address(&address).ok_or_else(|| {
+                actor_error!(illegal_argument, "unable to resolve control address: {}", address)
+            })
+        })
+        .map(|id_result| id_result.map(Address::new_id))
+        .collect::<Result<_, _>>()
+}
+/// lib.rs constructor: the same without the conversion to ID addresses (`Vec<ActorID>`)
+#[verifier::external_body]
+pub fn vx_resolve_control_ids(rt: &Rt, addrs: Vec<Address>) -> (r: Result<Vec<ActorID>, ActorError>)
+    ensures
+        r.is_ok() <==> forall|i: int| 0 <= i < addrs@.len() ==> (#[trigger] rt_resolve(addrs@[i], rt.sends@.len())).is_some(),
+        r.is_ok() ==> r->Ok_0@.len() == addrs@.len() && forall|i: int| 0 <= i < addrs@.len() ==> Some(#[trigger] r->Ok_0@[i]) == rt_resolve(addrs@[i], rt.sends@.len()),
+        r.is_err() ==> r->Err_0.code == 16,
+{
+    addrs
+        .into_iter()
+        .map(|address| {
+            rt.resolve_address(&address).ok_or_else(|| {
+                actor_error!(illegal_argument, "unable to resolve control address: {}", address)
+            })
+        })
+        .collect::<Result<_, _>>()
+}
+
+// ---- fvm_ipld_encoding BytesDe(pub Vec<u8>): prelude/miner_ext.rs models it as an opaque token; its length is a function of the token ---------
+pub uninterp spec fn bytes_de_len(b: BytesDe) -> nat;
+/// `ma.0.len()`
+#[verifier::external_body]
+pub fn vx_bytes_de_len(b: &BytesDe) -> (r: usize) ensures r == bytes_de_len(*b) { unimplemented!() }
+/// `ma.0.is_empty()`
+#[verifier::external_body]
+pub fn vx_bytes_de_is_empty(b: &BytesDe) -> (r: bool) ensures r == (bytes_de_len(*b) == 0) { unimplemented!() }
+
+// ---- constructor --------------------------------------------------------------------------------------------------------------------------------
+/// the circulating supply the runtime reports (a property of the chain, constant within the activation)
+pub uninterp spec fn rt_circ_supply() -> int;
+impl Rt {
+    /// Runtime::total_fil_circ_supply (syscall): reads the chain, changes nothing of the activation
+    #[verifier::external_body]
+    pub fn total_fil_circ_supply(&self) -> (r: TokenAmount) ensures r@ == rt_circ_supply() { unimplemented!() }
+    /// Primitives::hash_blake2b (syscall): a pure function of the bytes; reads nothing of the actor
+    #[verifier::external_body]
+    pub fn hash_blake2b(&self, data: &[u8]) -> (r: [u8; 32]) { unimplemented!() }
+}
+/// monies.rs initial_pledge_for_power (fixed-point projection of the expected reward, capped per byte): SOME amount, a deterministic function of
+/// the inputs (as in prelude/miner_onboard_assumed.rs)
+pub uninterp spec fn ip_spec(qa_power: int, baseline_power: int, reward: FilterEstimate, network_qa: FilterEstimate, circulating_supply: int, epochs_since_ramp_start: i64, ramp_duration_epochs: u64) -> int;
+#[verifier::external_body]
+pub fn initial_pledge_for_power(qa_power: &StoragePower, baseline_power: &StoragePower, reward_estimate: &FilterEstimate, network_qa_power_estimate: &FilterEstimate,
+        circulating_supply: &TokenAmount, epochs_since_ramp_start: i64, ramp_duration_epochs: u64) -> (r: TokenAmount)
+    ensures r@ == ip_spec(qa_power@, baseline_power@, *reward_estimate, *network_qa_power_estimate, circulating_supply@, epochs_since_ramp_start, ramp_duration_epochs)
+{ unimplemented!() }
+/// lib.rs assign_proving_period_offset: hashes (receiver address, epoch) with blake2b and ends with `offset %= policy.wpost_proving_period as u64;
+/// Ok(offset as ChainEpoch)` — SOME offset in [0, wpost_proving_period). The hash closure `|b| rt.hash_blake2b(b)` handed to it (an
+/// `impl FnOnce` argument, outside Verus' subset) is not passed: the unit passes the runtime instead (substitution listed on the directive);
+/// the closure definition itself stays in the extracted body.
+#[verifier::external_body]
+pub fn vx_assign_proving_period_offset(policy: &Policy, addr: Address, current_epoch: ChainEpoch, rt: &Rt) -> (r: anyhow::Result<ChainEpoch>)
+    requires policy.wpost_proving_period > 0
+    ensures r.is_ok() ==> 0 <= r->Ok_0 < policy.wpost_proving_period
+{ unimplemented!() }
+/// runtime/src/runtime/policy.rs ProofSet::contains: table lookup — a function of the table and the proof type
+pub uninterp spec fn proof_allowed(s: ProofSet, proof: RegisteredPoStProof) -> bool;
+impl ProofSet {
+    #[verifier::external_body]
+    pub fn contains(&self, proof: RegisteredPoStProof) -> (r: bool) ensures r == proof_allowed(*self, proof) { unimplemented!() }
+}
+/// fvm_shared RegisteredPoStProof::sector_size / window_post_partition_sectors: tables on the proof type (Err for unknown types); every known
+/// type has at least one sector per partition (2349, 2 or 10 in fvm_shared)
+pub uninterp spec fn post_sector_size(p: RegisteredPoStProof) -> SectorSize;
+pub uninterp spec fn post_partition_sectors(p: RegisteredPoStProof) -> u64;
+impl RegisteredPoStProof {
+    #[verifier::external_body]
+    pub fn sector_size(self) -> (r: Result<SectorSize, String>) ensures r.is_ok() ==> r->Ok_0 == post_sector_size(self) { unimplemented!() }
+    #[verifier::external_body]
+    pub fn window_post_partition_sectors(self) -> (r: Result<u64, String>) ensures r.is_ok() ==> r->Ok_0 == post_partition_sectors(self) { unimplemented!() }
+}
+/// state.rs MinerInfo::new: `control_addresses.into_iter().map(Address::new_id).collect_vec()` — the body IS the original expression
+#[verifier::external_body]
+pub fn vx_ids_to_addrs(control_addresses: Vec<ActorID>) -> (r: Vec<Address>)
+    ensures r@.len() == control_addresses@.len(), forall|i: int| 0 <= i < r@.len() ==> (#[trigger] r@[i]) == (Address { id: control_addresses@[i], proto: 0 })
+{ control_addresses.into_iter().map(Address::new_id).collect() }
+impl State {
+    /// state.rs State::new (state.rs:124-187): flushes empty pre-commit map / clean-up queue / sector array / allocation bitfield / deadlines and
+    /// returns a state whose money totals are `TokenAmount::default()` (zero), whose vesting table is `VestingFunds::new()` (empty), with the
+    /// given info CID, proving-period start and deadline index, no early terminations and the deadline cron inactive
+    #[verifier::external_body]
+    pub fn new<BS: Blockstore>(policy: &Policy, store: &BS, info_cid: Cid, period_start: ChainEpoch, deadline_idx: u64) -> (r: Result<State, ActorError>)
+        ensures r.is_ok() ==> ({
+            let s = r->Ok_0;
+            &&& s.info == info_cid && s.proving_period_start == period_start && s.current_deadline == deadline_idx
+            &&& s.pre_commit_deposits@ == 0 && s.locked_funds@ == 0 && s.initial_pledge@ == 0 && s.fee_debt@ == 0
+            &&& s.vesting_funds@ =~= Seq::<VfEntry>::empty()
+            &&& s.early_terminations@ =~= vstd::set::Set::<u64>::empty() && !s.deadline_cron_active
+        }),
+    { unimplemented!() }
+}
